@@ -159,7 +159,7 @@ _OPP = {"<": [">", ">="], "<=": [">=", ">"], ">": ["<", "<="], ">=": ["<=", "<"]
 def _boundary_lines(rng, cls, names):
     """the boundary stream for simplify: returns a list of lines"""
     which = rng.choice(["opposing", "opposing", "semantic-opposite", "semantic-opposite", "cancel", "cancel", "zero-coeff",
-                        "duplicate", "same-var"])
+                        "duplicate", "same-var"] + (["diagonal", "diagonal"] if len(names) >= 2 else []))
     base = _linear_line(rng, cls, names, cmp=rng.choice(["<", "<=", ">=", ">"]))
     l, c, r = U.split_cmp(base)
     l, r = l.strip(), r.strip()
@@ -174,6 +174,12 @@ def _boundary_lines(rng, cls, names):
         k = _lit(_num(rng, cls))
         d = _lit(rng.choice([0, 0, 1, -2] if cls == "int" else [0.0, 0.0, 0.5, -2.0]))
         lines = ["%s*%s %s %s*%s + %s" % (k, v, rng.choice(["=", "!=", "=", "!=", "<", ">="]), k, v, d)]
+    elif which == "diagonal":    # a homogeneous line whose coefficients cancel: its boundary contains the diagonal x_i = t (every point with equal
+        vs = rng.sample(names, min(len(names), rng.choice([2, 2, 3])))   # coordinates lies on it), the isolated variable has a negative coefficient
+        a = rng.choice([1, 2, 3]) if cls == "int" else rng.choice([1.0, 0.5, 2.0, 3.0])
+        cs = [-a * (len(vs) - 1)] + [a] * (len(vs) - 1)
+        terms = " + ".join("%s*%s" % (_lit(k), v) for k, v in zip(cs, vs))
+        lines = ["%s %s %s" % (terms, rng.choice(["<", "<=", ">=", ">"]), _lit(0 if cls == "int" else 0.0))]
     elif which == "zero-coeff":
         v = rng.choice(names)
         lines = ["%s + 0*%s" % (l, v) + " %s %s" % (c, r)]
